@@ -466,7 +466,7 @@ func (r *rewriter) rewriteCall(n *ast.CallExpr, info *types.Info) ast.Expr {
 
 // writeGenerated adds the in-package accessors (build tag verif; the scratch copy is always built with it).
 func writeGenerated(p *packages.Package) {
-	need := []string{"resetPools", "pools", "reDict", "defaultOpts", "emptyResult", "Result", "Opts"}
+	need := []string{"resetPools", "pools", "defaultOpts", "emptyResult", "Result", "Opts"}
 	scope := p.Types.Scope()
 	for _, n := range need {
 		if scope.Lookup(n) == nil {
@@ -475,6 +475,24 @@ func writeGenerated(p *packages.Package) {
 	}
 	if fatalN > 0 {
 		return
+	}
+	// every package-level variable of the package (whatever a change adds or retypes) is put back to its initial value by
+	// VerifResetGlobals: collected here from the type information, restored by reflection in the generated file
+	var varNames []string
+	for _, n := range scope.Names() {
+		v, ok := scope.Lookup(n).(*types.Var)
+		if !ok || n == "_" || n == "pools" || strings.HasPrefix(n, "verif") {
+			continue
+		}
+		if _, isFunc := v.Type().Underlying().(*types.Signature); isFunc {
+			continue
+		}
+		varNames = append(varNames, n)
+	}
+	sort.Strings(varNames)
+	var varList strings.Builder
+	for _, n := range varNames {
+		fmt.Fprintf(&varList, "\t{%q, &%s},\n", n, n)
 	}
 	dir := filepath.Dir(p.CompiledGoFiles[0])
 	src := `//go:build verif
@@ -486,18 +504,47 @@ package validate
 import (
 	"reflect"
 	"sync"
-	"sync/atomic"
 	"unsafe"
 )
 
-// verifInitialOpts is a snapshot of the package defaults taken at initialisation (no constant is mirrored).
-var verifInitialOpts = defaultOpts
+// verifVars: every package-level variable of the package (but the pools, which resetPools() renews).
+var verifVars = []struct {
+	name string
+	p    any
+}{
+@VARLIST@}
 
-// VerifResetGlobals puts the process-wide state of the package back to what a fresh process has.
+type verifSnap struct {
+	v        reflect.Value
+	emptyMap bool
+}
+
+// verifSnaps holds a (shallow) copy of every package-level variable as package initialisation left it: no constant of
+// the implementation is mirrored, and a variable that a change adds or retypes is covered without touching this file.
+var verifSnaps = func() []verifSnap {
+	out := make([]verifSnap, len(verifVars))
+	for i, e := range verifVars {
+		v := reflect.ValueOf(e.p).Elem()
+		c := reflect.New(v.Type()).Elem()
+		c.Set(v)
+		out[i] = verifSnap{v: c, emptyMap: v.Kind() == reflect.Map && !v.IsNil() && v.Len() == 0}
+	}
+	return out
+}()
+
+// VerifResetGlobals puts the process-wide state of the package back to what a fresh process has: new pools, every
+// package-level variable back to its initial value (a map that started empty becomes a new empty map; what a pointer or
+// a non-empty map refers to cannot be rolled back).
 func VerifResetGlobals() {
 	resetPools()
-	reDict = atomic.Value{}
-	defaultOpts = verifInitialOpts
+	for i, e := range verifVars {
+		v := reflect.ValueOf(e.p).Elem()
+		if verifSnaps[i].emptyMap {
+			v.Set(reflect.MakeMap(v.Type()))
+			continue
+		}
+		v.Set(verifSnaps[i].v)
+	}
 }
 
 // VerifPoolNames maps every pool of the package to the name of its field.
@@ -533,16 +580,8 @@ func VerifEmptyResult() *Result { return emptyResult }
 // VerifWantsRedeem tells whether merging r releases it to the pool.
 func VerifWantsRedeem(r *Result) bool { return r != nil && r.wantsRedeemOnMerge }
 
-// VerifRegexpCacheSize returns the number of cached expressions.
-func VerifRegexpCacheSize() int {
-	m, _ := reDict.Load().(map[string]*regexpT)
-	return len(m)
-}
 `
-	// the regexp import alias differs between versions: find the name used for the cache's element type
-	src = strings.Replace(src, "map[string]*regexpT", "map[string]*verifRegexp", 1)
-	src = strings.Replace(src, "import (\n", "import (\n\tverifre \"regexp\"\n", 1)
-	src += "\ntype verifRegexp = verifre.Regexp\n"
+	src = strings.Replace(src, "@VARLIST@", varList.String(), 1)
 	out := filepath.Join(dir, "zz_verif_generated.go")
 	b, err := format.Source([]byte(src))
 	if err != nil {
